@@ -21,7 +21,7 @@ ASSUMPTIONS = ["invalid_disparity values are float32-representable (the map is f
 GATES = {
     "two_blocks_both_axes_with_tie_and_allnan_in_later_block": 1,
     "nan_invalid_disparity": 1, "more_than_256_disparity_samples": 1,
-    "max_type_with_ties": 1, "volume_computed_with_a_window_larger_than_1": 3, "volume_with_infinite_costs": 3, "volume_is_a_window_of_a_larger_buffer": 3, "volume_in_the_matching_cost_layout": 3,
+    "max_type_with_ties": 1, "disparity_object_reused_for_a_volume_of_the_other_type": 3, "volume_computed_with_a_window_larger_than_1": 3, "volume_with_infinite_costs": 3, "volume_is_a_window_of_a_larger_buffer": 3, "volume_in_the_matching_cost_layout": 3,
     "all_27_patterns_D3": 1,
     "pipeline_disparity_steps": 5,
     "pixels_judged": 100000,
@@ -229,6 +229,16 @@ def run_case(case, ctx):
             # the 'iff' clause cannot be read off the map; judge everything else with a sentinel comparison
             pass
         exp_idx = judge(ctx, case, before, cv, out, inv_val, tm, desc, pix_min, pix_max)
+        if rows * cols <= 40000 and (case["j"] + rows + cols) % 3 == 0:
+            # step-by-step use of the API: the SAME disparity object then serves a second volume of the same shape and of the other
+            # type of measure (the costs negated: the same winners), and a third one of another shape
+            tm2 = "max" if tm == "min" else "min"
+            cv2 = gen.make_cv(-np.ascontiguousarray(before["cost_volume"].data), disps, tm2, window_size=wsz, subpix=subpix, validity=validity,
+                              conf=conf, conf_names=names)
+            before2 = gen.deep_copy_ds(cv2)
+            out2 = disp_.to_disp(cv2, None, None)
+            judge(ctx, case, before2, cv2, out2, inv_val, tm2, dict(desc, second_use_of_the_same_object=True, type=tm2), pix_min, pix_max)
+            ctx.gate("disparity_object_reused_for_a_volume_of_the_other_type")
         ties = bool(((costs == np.nanmin(np.where(np.isnan(costs), np.inf, costs), axis=2, keepdims=True)).sum(axis=2) > 1).any()) if nd > 1 else False
         ctx.case([desc[k] for k in desc], nontrivial=bool(ties and np.isnan(costs).any()))
         if rows > 100 and cols > 100:
